@@ -9,7 +9,7 @@ use fuse_backend_rs::transport::FsCacheReqHandler;
 use serde_json::{json, Value};
 use std::ffi::CStr;
 use std::io;
-use std::sync::Mutex;
+use std::sync::{Arc, Mutex};
 use std::time::Duration;
 
 use crate::wirecodec::pay;
@@ -86,24 +86,30 @@ fn mkerr(os: i32, kind: &Option<io::ErrorKind>) -> io::Error {
     }
 }
 
+/// Cloning yields another handle on the same log/script (so that a boxed clone can be handed to
+/// `Vfs::mount` while the harness keeps access).
+#[derive(Clone)]
 pub struct ScriptedFs {
     pub id: String,
-    pub log: Mutex<Vec<Value>>,
-    pub next: Mutex<Ret>,
+    pub log: Arc<Mutex<Vec<Value>>>,
+    pub next: Arc<Mutex<Ret>>,
     /// id translation performed by id_remap: uid/gid are XOR-ed with this value
     pub remap_xor: u32,
     /// FsOptions returned by init
-    pub want: Mutex<u64>,
+    pub want: Arc<Mutex<u64>>,
+    /// what `BackendFileSystem::mount` returns: root entry and largest inode number
+    pub root: Arc<Mutex<(Entry, u64)>>,
 }
 
 impl ScriptedFs {
     pub fn new(id: &str) -> Self {
         ScriptedFs {
             id: id.to_string(),
-            log: Mutex::new(Vec::new()),
-            next: Mutex::new(Ret::Unit),
+            log: Arc::new(Mutex::new(Vec::new())),
+            next: Arc::new(Mutex::new(Ret::Unit)),
             remap_xor: 0,
-            want: Mutex::new(0),
+            want: Arc::new(Mutex::new(0)),
+            root: Arc::new(Mutex::new((Entry { inode: 1, ..Entry::default() }, 1))),
         }
     }
     pub fn set(&self, r: Ret) {
@@ -644,6 +650,19 @@ impl FileSystem for ScriptedFs {
         ctx.gid ^= self.remap_xor;
         self.log.lock().unwrap().push(json!({"m": "id_remap", "fs": self.id, "nodeid": s64(nodeid), "in": before, "out": Self::ctxj(ctx)}));
         Ok(())
+    }
+}
+
+impl fuse_backend_rs::api::BackendFileSystem for ScriptedFs {
+    fn mount(&self) -> io::Result<(Entry, u64)> {
+        let (e, max) = *self.root.lock().unwrap();
+        let mut ej = entry_json(&e);
+        ej.as_object_mut().unwrap().remove("kind");
+        self.log.lock().unwrap().push(json!({"m": "mount", "fs": self.id, "args": {}, "ret": {"kind": "mount", "entry": ej, "max": s64(max)}}));
+        Ok((e, max))
+    }
+    fn as_any(&self) -> &dyn std::any::Any {
+        self
     }
 }
 
